@@ -473,6 +473,23 @@ class Check:
             rc = 1
             if len(seen) >= 10:
                 break
+        # keys the evidence schema types: a value of another type is kept under <key>_detail and the key gets a value
+        # of the schema's type (exhaustive: true only if the check said so with a boolean)
+        typed = dict(evaluations=int, distinct_nontrivial=int, rule=str, samples=list, states=int, transitions=int,
+                     traces_validated_against_impl=int, obligations=int, discharged=int, checker_cmd=str, trusted_base=list,
+                     programs=int, disagreements_checked=int, explanation=str, exhaustive=bool)
+        for k, ty in typed.items():
+            if k in self.cov and (not isinstance(self.cov[k], ty) or (ty is int and isinstance(self.cov[k], bool))):
+                v = self.cov.pop(k)
+                self.cov[k + "_detail"] = v
+                if ty is bool:
+                    self.cov[k] = False
+                elif ty is int:
+                    self.cov[k] = sum(x for x in v.values() if isinstance(x, int) and not isinstance(x, bool)) if isinstance(v, dict) else 0
+                elif ty is str:
+                    self.cov[k] = json.dumps(v, ensure_ascii=False, default=str)
+                elif ty is list:
+                    self.cov[k] = [v]
         ev = dict(property_id=self.pid, tier=self.tier, seed=self.seed, level=self.level, coverage=self.cov,
                   assumptions=self.assumptions, wall_s=round(time.time() - self.t0, 2), violations=len(seen))
         os.makedirs(os.path.join(VERIF, "evidence"), exist_ok=True)
